@@ -1,7 +1,7 @@
 """C02 — boolean collision tests (structural clauses)."""
 from . import scopes
 from ..core.report import DOMAIN_D
-from ..rules import nesterov, mink, loops, runmin, libccd, unpack, ericson, misc2, unitdir, frame
+from ..rules import colliders, rowalias, nesterov, mink, loops, runmin, libccd, unpack, ericson, misc2, unitdir, frame
 from .common import e2
 
 MODS = ["distance3d.gjk._gjk_jolt", "distance3d.gjk._gjk_libccd", "distance3d.mpr", "distance3d.gjk._gjk_nesterov_accelerated",
@@ -24,11 +24,14 @@ def run(idx, rep, tier):
     nesterov.r_infl(idx, rep)
     nesterov.r_dispatch(idx, rep)
     nesterov.r_dtree(idx, rep)
+    rowalias.r_rowalias(idx, rep, ["distance3d.gjk._gjk_nesterov_accelerated", "distance3d.gjk._gjk_nesterov_accelerated_primitives"])      # the simplex re-ordering functions get views of the rows they overwrite
     nesterov.r_tuplerole(idx, rep, floor=6)
     loops.r_loop(idx, rep, MODS, floor=6)
     ericson.r_ericson(idx, rep)
     nesterov.r_mainloop(idx, rep)
     misc2.r_dupcond(idx, rep, [m.name for m in idx.lib_modules()], floor=3)
+    colliders.r_coherence(idx, rep, relevant_to="support_function")      # the colliders of the statement include colliders that were moved with update_pose: a stale attribute changes the support mapping the solver sees
+    misc2.r_adjacency(idx, rep)      # mesh colliders answer support queries by hill climbing over this adjacency
     unitdir.r_portaldir(idx, rep)
     nesterov.r_supportsibling(idx, rep)
     # what the tests ask the colliders for (centre, support points, first vertex) must come back in the world frame: MPR aims its origin ray at
